@@ -1,4 +1,4 @@
-import Adlt.Net.Complete
+import Adlt.Net.Live
 /-! # C13 — bounded channels and slow consumers never lose or reorder messages
 
 Model: `Net` — a pipeline of deterministic stream transducers (`Stage`: outputs caused by one more input, outputs at
@@ -19,6 +19,27 @@ theorem C13_safety {M : Type} (input : List M) (stages : List (Stage M)) (s' : N
 theorem C13_complete {M : Type} (input : List M) (stages : List (Stage M)) (s' : Nat) (nodes' : List (Node M)) (got' : List M)
     (hs : Steps input true 0 (initNodes stages) [] s' nodes' got') (ht : Terminal input.length s' nodes' got') :
     got' = pipe stages input := Net.C13_complete input stages s' nodes' got' hs ht
+
+/-- no deadlock: with one capacity ≥ 1 per channel, under every schedule that respects the capacities (a push needs room
+    in its channel), the pipeline is never stuck — either another action is enabled or every stage has ended and drained
+    and the consumer holds exactly the sequential result (a rendezvous channel blocks the sender like a full one-place
+    channel; it is covered by the real-thread runs) -/
+theorem C13_no_deadlock {M : Type} (input : List M) (stages : List (Stage M)) (caps : List Nat)
+    (hl : caps.length = stages.length + 1) (hc : ∀ c ∈ caps, 1 ≤ c)
+    (s' : Nat) (nodes' : List (Node M)) (got' : List M)
+    (hs : StepsC caps input true 0 (initNodes stages) [] s' nodes' got') :
+    (∃ s'' nodes'' got'', StepC caps input true s' nodes' got' s'' nodes'' got'') ∨ got' = pipe stages input :=
+  Net.C13_no_deadlock input stages caps hl hc s' nodes' got' hs
+
+/-- termination (consumer present): every schedule is finite; its length is bounded by the initial amount of work, which
+    depends only on the input and the stage functions — not on capacities, pacing or scheduling -/
+theorem C13_terminates {M : Type} (input : List M) (stages : List (Stage M)) (k : Nat) (s' : Nat) (nodes' : List (Node M)) (got' : List M)
+    (hs : StepsN k input true 0 (initNodes stages) [] s' nodes' got') :
+    k ≤ work input 0 (initNodes stages) [] := Net.C13_terminates input stages k s' nodes' got' hs
+
+/-- non-vacuity: the identity stage on two inputs behind channels of capacity 1: the initial state has an enabled action -/
+example : ∃ s' nodes' got', StepC [1, 1] [1, 2] true 0 (initNodes [({ inc := fun _ x => [x], flush := fun _ => [] } : Stage Nat)]) [] s' nodes' got' :=
+  ⟨_, _, _, .push 1 [1] [1, 2] true 0 _ [] (by decide) (by decide)⟩
 
 /-- non-vacuity: a doubling stage followed by a stage that holds back one element; a schedule that pushes two inputs -/
 example : pipe [({ inc := fun _ x => [x, x], flush := fun _ => [] } : Stage Nat),
